@@ -81,9 +81,9 @@ type SubmitFlags struct {
 	MessageType             MessageType
 	RejectDuplicates        bool
 	ValidityPeriodFormat    byte
-	ReplyPath               bool
-	UserDataHeaderIndicator bool
-	StatusReportRequest     bool
+	StatusReportRequest     bool // bit 5, TP-Status-Report-Request (GSM 03.40 9.2.2.2)
+	UserDataHeaderIndicator bool // bit 6, TP-User-Data-Header-Indicator
+	ReplyPath               bool // bit 7, TP-Reply-Path
 }
 
 func (p *SubmitFlags) setDirection(direction Direction) {
